@@ -2,6 +2,7 @@
 From Coq Require Import NArith List.
 Import ListNotations.
 From CXV Require Import Gen.TokTy Gen.ParserTables Parse.Balanced Parse.BalancedThms Parse.Positions.
+From CXV Require Import Parse.Declarator Parse.DeclSpec Parse.DeclThms Parse.EnumList Parse.Requires.
 Open Scope N_scope.
 
 Section C14.
@@ -47,6 +48,51 @@ Theorem positions_policy :
     (tclass <> 0 -> kind = K_INNER) /\ (tclass = 0 -> kind <> K_INNER).
 Proof. exact positions_policy_lemma. Qed.
 
+(* requires-clauses (_parse_requires, a bespoke loop): a clause of primaries -- parenthesized
+   expressions and possibly specialized names, decltype(...) pieces -- joined by one or
+   two operator tokens, of any length, ended by any token that is not an operator or by
+   a single '=' (`= delete`): the value is exactly the source tokens of the clause, in
+   order, and the ending token with everything behind it stays in the stream.  For names
+   written with '::' between their pieces the value lacks those '::' tokens (known finding
+   F29; requires_clause_value_partial states what is reported). *)
+Theorem requires_clause_exact_for_unqualified_names : forall pr ls x X f g,
+  prim_ok pr -> links_ok pr ls -> follows (last_prim pr ls) x -> stop_ok x X ->
+  unqualified pr -> Forall (fun l : link => unqualified (snd l)) ls ->
+  (S (length ls) <= f)%nat -> (max_pieces pr ls <= g)%nat ->
+  requires_clause f g (clause_toks pr ls ++ x :: X) = DOk (clause_toks pr ls, x :: X).
+Proof. exact requires_clause_exact. Qed.
+
+Theorem requires_clause_value_partial : forall pr ls x X f g,
+  prim_ok pr -> links_ok pr ls -> follows (last_prim pr ls) x -> stop_ok x X ->
+  (S (length ls) <= f)%nat -> (max_pieces pr ls <= g)%nat ->
+  requires_clause f g (clause_toks pr ls ++ x :: X) = DOk (clause_val pr ls, x :: X).
+Proof. exact requires_clause_roundtrip. Qed.
+
+Theorem requires_expression_exact : forall ps body X f g,
+  SNk ps -> SNk body ->
+  requires_clause f g (ktok T_requires :: ktok LP :: ps ++ ktok RP :: ktok LBRACE :: body ++ ktok RBRACE :: X)
+  = DOk (ktok T_requires :: (ktok LP :: ps ++ [ktok RP]) ++ (ktok LBRACE :: body ++ [ktok RBRACE]), X).
+Proof. exact requires_requires_roundtrip. Qed.
+
+(* F29 in the model: `std :: integral < T > void` reports std integral < T > *)
+Example requires_qualified_name_refuted :
+  requires_clause 3 3 [mkTk T_NAME 1; ktok T_DBL_COLON; mkTk T_NAME 2; ktok T_LIT_60; mkTk T_NAME 3; ktok T_LIT_62; ktok T_void]
+  = DOk ([mkTk T_NAME 1; mkTk T_NAME 2; ktok T_LIT_60; mkTk T_NAME 3; ktok T_LIT_62], [ktok T_void]).
+Proof. vm_compute. reflexivity. Qed.
+
+(* non-vacuity: `( A < T > ) && B < T > || C == D = delete` *)
+Example requires_clause_run :
+  requires_clause 9 9 [ktok LP; mkTk T_NAME 1; ktok T_LIT_60; mkTk T_NAME 3; ktok T_LIT_62; ktok RP; ktok T_DBL_AMP;
+                       mkTk T_NAME 2; ktok T_LIT_60; mkTk T_NAME 3; ktok T_LIT_62; ktok T_DBL_PIPE; mkTk T_NAME 4; ktok EQ; ktok EQ;
+                       mkTk T_NAME 5; ktok EQ; ktok T_delete]
+  = DOk ([ktok LP; mkTk T_NAME 1; ktok T_LIT_60; mkTk T_NAME 3; ktok T_LIT_62; ktok RP; ktok T_DBL_AMP;
+          mkTk T_NAME 2; ktok T_LIT_60; mkTk T_NAME 3; ktok T_LIT_62; ktok T_DBL_PIPE; mkTk T_NAME 4; ktok EQ; ktok EQ; mkTk T_NAME 5],
+         [ktok EQ; ktok T_delete]).
+Proof. vm_compute. reflexivity. Qed.
+
+Print Assumptions requires_clause_exact_for_unqualified_names.
+Print Assumptions requires_clause_value_partial.
+Print Assumptions requires_expression_exact.
 Print Assumptions value_is_contiguous.
 Print Assumptions value_stops_at_terminator.
 Print Assumptions value_is_whole.
